@@ -408,6 +408,11 @@ def check(ctx):
         r1_writers(ctx, f, rep, eff)
         r2_identity(ctx, f, rep, eff)
         r3_no_fabrication(ctx, f, rep)
+        # the incarnation *stored* for another member is only ever the one an update carried: change_state and the
+        # conflict replacement copy it verbatim (C01-R3, re-run here) - what is stored is what is gossiped later
+        from . import c01 as _c01
+        from .c09 import _Rename as _Rn
+        _c01.r3_writers(ctx, f, _Rn(rep, 'C01-R3', 'C10-R3'))
         r4_rejoin_or_defunct(ctx, f, rep)
         # wire-visible clause: the header reads self.identity / self.incarnation at send time (C07-R1 re-run)
         from . import c07, c08
